@@ -454,7 +454,26 @@ void respond(World &W, Peer &p, Exchange &x, const Bytes &query)
 	x.bytes = all;
 	x.closes = closes;
 	x.start_off = p.in_stream.size();
-	queue_bytes(W, p, all, W.lat_min_ns + W.lat.below(W.lat_jit_ns + 1));
+	if (ex.has("hold") && all.size() > 1) {
+		// a rendezvous delay: the last bytes of this answer stay in the network until another socket has (almost) read its
+		// own answer, at the latest for max_s seconds
+		const J &h = ex["hold"];
+		size_t tail = (size_t)h.geti("tail", 4);
+		if (tail < 1)
+			tail = 1;
+		if (tail >= all.size())
+			tail = all.size() - 1;
+		uint64_t d0 = W.lat_min_ns + W.lat.below(W.lat_jit_ns + 1);
+		queue_bytes(W, p, Bytes(all.begin(), all.end() - (long)tail), d0);
+		size_t n0 = p.inq.size();
+		queue_bytes(W, p, Bytes(all.end() - (long)tail, all.end()), d0 + (uint64_t)h.geti("max_s", 30) * SIM_NS);
+		int id = (int)W.holds.size() + 1;
+		for (size_t i = n0; i < p.inq.size(); i++)
+			p.inq[i].hold = id;
+		W.holds.push_back({id, p.si, (int)h.geti("sock", 0), (int)h.geti("xi", 0), (size_t)h.geti("before", 0), false});
+		W.ctx.count("fault_rendezvous_delay");
+	} else
+		queue_bytes(W, p, all, W.lat_min_ns + W.lat.below(W.lat_jit_ns + 1));
 	if (ex.has("down_s")) { // the cache goes away after this answer
 		closes = true;
 		x.closes = true;
